@@ -7,23 +7,70 @@ import (
 	"path/filepath"
 	"sync"
 	"sync/atomic"
+	"syscall"
 	"time"
 )
 
-// The watchdog turns a call that does not return into a reported violation:
-// every Apply registers itself; if one is still running after HangDeadline the
-// process writes the op log as replay, prints the VIOLATION line and exits.
+// The watchdog turns a call that does not return into a reported violation. Wall-clock time alone is
+// a flaky signal on a loaded machine, so two independent limits are used:
+//   - spinning: the process has burnt HangCPU of CPU time since the call started (a legitimate call
+//     needs milliseconds of CPU; CPU time does not advance while the process is starved);
+//   - blocked: HangWall of wall time has passed (a legitimate call never blocks; the limit is far above
+//     anything load can cause).
+// HangDeadline is kept as the nominal figure quoted in messages.
 
-var HangDeadline = 20 * time.Second
+var (
+	HangDeadline = 20 * time.Second
+	HangCPU      = 25 * time.Second
+	HangWall     = 240 * time.Second
+)
 
 var (
 	watchMu    sync.Mutex
 	watchEnv   *Env
 	watchStart atomic.Int64
+	watchCPU   atomic.Int64
 	watchOnce  sync.Once
 	// HangReport is called (if set) with the op log when a hang is detected; it must not return.
 	HangReport func(log []Op)
 )
+
+// ProcessCPU returns the CPU time (user+system) this process has consumed.
+func ProcessCPU() time.Duration {
+	var ru syscall.Rusage
+	if err := syscall.Getrusage(syscall.RUSAGE_SELF, &ru); err != nil {
+		return 0
+	}
+	return time.Duration(ru.Utime.Nano() + ru.Stime.Nano())
+}
+
+// Hung reports whether a call started at (wallStart, cpuStart) must be considered hung.
+func Hung(wallStart time.Time, cpuStart time.Duration) (bool, string) {
+	if cpu := ProcessCPU() - cpuStart; cpu > HangCPU {
+		return true, fmt.Sprintf("the call has consumed %v of CPU time without returning (spinning)", cpu.Round(time.Second))
+	}
+	if w := time.Since(wallStart); w > HangWall {
+		return true, fmt.Sprintf("the call has not returned after %v of wall time (blocked)", w.Round(time.Second))
+	}
+	return false, ""
+}
+
+// WaitOrHang waits for done; it returns a description if the wait must be considered a hang.
+func WaitOrHang(done <-chan struct{}) (hung bool, why string) {
+	start, cpu := time.Now(), ProcessCPU()
+	t := time.NewTicker(200 * time.Millisecond)
+	defer t.Stop()
+	for {
+		select {
+		case <-done:
+			return false, ""
+		case <-t.C:
+			if h, why := Hung(start, cpu); h {
+				return true, why
+			}
+		}
+	}
+}
 
 func WatchBegin(e *Env) {
 	watchOnce.Do(func() {
@@ -31,7 +78,10 @@ func WatchBegin(e *Env) {
 			for {
 				time.Sleep(500 * time.Millisecond)
 				st := watchStart.Load()
-				if st != 0 && time.Since(time.Unix(0, st)) > HangDeadline {
+				if st == 0 {
+					continue
+				}
+				if h, why := Hung(time.Unix(0, st), time.Duration(watchCPU.Load())); h && watchStart.Load() == st {
 					watchMu.Lock()
 					env := watchEnv
 					watchMu.Unlock()
@@ -39,10 +89,10 @@ func WatchBegin(e *Env) {
 					if env != nil {
 						log = env.Log
 					}
+					fmt.Fprintf(os.Stderr, "HANG: %s\n", why)
 					if HangReport != nil {
 						HangReport(log)
 					}
-					fmt.Fprintf(os.Stderr, "HANG: call did not return within %v\n", HangDeadline)
 					os.Exit(3)
 				}
 			}
@@ -51,6 +101,7 @@ func WatchBegin(e *Env) {
 	watchMu.Lock()
 	watchEnv = e
 	watchMu.Unlock()
+	watchCPU.Store(int64(ProcessCPU()))
 	watchStart.Store(time.Now().UnixNano())
 }
 
